@@ -2,7 +2,8 @@ import BobModel.Proofs.C18Trim
 /-
 Helper lemmas for C18 (completeness): the forward loop keeps `valid` connected to the root and
 keeps the context nodes inside `valid`, provided `__findIntermediateNodes` connects every result
-of a descendant step (`IntermediateConn`, proved for the model's `traverse` in C18Traverse.lean).
+of a descendant step (`IntermediateConn`, proved at the end from the specification of the memoised
+search in C18Traverse.lean).
 -/
 namespace PathSpec
 
@@ -174,5 +175,64 @@ theorem findResultNodes_complete {g : Graph} (hwf : g.WF) (hac : g.Acyclic) (hI 
   | false =>
     exact findResultNodes_first_complete g (g.size + 1) g.root nodes valid
       (by intro l hl; have := chain_length_le hwf hac l g.root hl; omega) s n hs hn
+
+
+/-! ### `IntermediateConn` holds for the memoised search -/
+
+theorem pathWithin_of_transGen {g : Graph} {qi : Bool} {S : List Node} {a y : Node}
+    (t : Relation.TransGen (edge g qi) a y) :
+    (∀ z, Relation.TransGen (edge g qi) a z → (z = y ∨ Relation.TransGen (edge g qi) z y) → z ∈ S) →
+    ∃ s, PathWithin g S a s y := by
+  induction t with
+  | single he =>
+    intro hS
+    obtain ⟨e, hmem, hnode, _⟩ := he
+    subst hnode
+    exact ⟨[e.name], e, hmem, rfl, hS _ (.single ⟨e, hmem, rfl, by assumption⟩) (Or.inl rfl), rfl⟩
+  | tail t he ih =>
+    intro hS
+    obtain ⟨s, hs⟩ := ih (by
+      intro z hz hzu
+      apply hS z hz
+      rcases hzu with rfl | hzu
+      · exact Or.inr (.single he)
+      · exact Or.inr (.tail hzu he))
+    have hy := hS _ (.tail t he) (Or.inl rfl)
+    obtain ⟨e, hmem, hnode, _⟩ := he
+    subst hnode
+    exact ⟨s ++ [e.name], pathWithin_snoc s _ _ e hs hmem hy⟩
+
+theorem intermediateConn {g : Graph} (hwf : g.WF) (hac : g.Acyclic) : IntermediateConn g := by
+  intro old ns qi _ hns y hy
+  by_cases hsup : superset old ns = true
+  · have hX : findIntermediateNodes g old ns qi = [] := by simp [findIntermediateNodes, hsup]
+    rw [hX] at hy
+    have hyn : y ∈ ns := by simpa using hy
+    exact ⟨y, superset_iff.mp hsup y hyn, [], rfl⟩
+  · have hsup' : superset old ns = false := by simpa using hsup
+    have spec := findIntermediateNodes_spec hwf hac old ns qi hsup'
+    rcases mem_union.mp hy with hyx | hyn
+    · obtain ⟨⟨o, ho, hr⟩, t, ht, hyt⟩ := (spec y).mp hyx
+      rcases hr with rfl | hr
+      · exact ⟨_, ho, [], rfl⟩
+      · obtain ⟨s, hs⟩ := pathWithin_of_transGen (S := union (findIntermediateNodes g old ns qi) ns) hr (by
+          intro z hz hzy
+          apply mem_union.mpr; left
+          apply (spec z).mpr
+          refine ⟨⟨o, ho, Or.inr hz⟩, t, ht, ?_⟩
+          rcases hzy with rfl | hzy
+          · exact hyt
+          · exact transGen_trans hzy hyt)
+        exact ⟨o, ho, s, hs⟩
+    · rcases hns y hyn with hyo | ⟨a, ha, hr⟩
+      · exact ⟨y, hyo, [], rfl⟩
+      · obtain ⟨s, hs⟩ := pathWithin_of_transGen (S := union (findIntermediateNodes g old ns qi) ns) hr (by
+          intro z hz hzy
+          apply mem_union.mpr
+          rcases hzy with rfl | hzy
+          · exact Or.inr hyn
+          · left
+            exact (spec z).mpr ⟨⟨a, ha, Or.inr hz⟩, y, hyn, hzy⟩)
+        exact ⟨a, ha, s, hs⟩
 
 end PathSpec
